@@ -26,6 +26,8 @@ def make(family, rng, tier):
                                                 "interactive_prob": 0.3, "query_prob": 0.1, "batch_prob": 0.6}}
     if family == "trace":
         return tracecmp.gen_trace(rng, avoid_known=rng.random() < 0.95)
+    if family == "sens":
+        return tracecmp.gen_sens(rng)
     if family == "cli":
         return {"kind": "cli", "params": tracecmp.gen_params(rng), "twice": rng.random() < 0.3}
     if family == "big":
@@ -36,6 +38,8 @@ def make(family, rng, tier):
 
 
 def execute(scn, rng):
+    if scn["kind"] == "sens":
+        return tracecmp.run_sens(scn)
     if scn["kind"] == "cli":
         return tracecmp.run_cli_roundtrip(scn)
     if scn["kind"] == "roundtrip":
@@ -46,7 +50,7 @@ def execute(scn, rng):
 def plan(tier):
     q = tier == "quick"
     return [("trace", 6000 if q else 100000), ("grid", 96 if q else 480), ("roundtrip", 400 if q else 8000),
-            ("aimD9a", 8), ("aimD9b", 8), ("big", 8 if q else 64), ("cli", 150 if q else 3000)]
+            ("aimD9a", 8), ("aimD9b", 8), ("big", 8 if q else 64), ("cli", 150 if q else 3000), ("sens", 120 if q else 2500)]
 
 
 def sample(scn, out):
